@@ -941,6 +941,12 @@ static const uint8_t *unmarshal_one_def(
         if (def->flags & JANET_FUNCDEF_FLAG_HASSYMBOLMAP)
             symbolmap_length = readnat(st, &data);
 
+        /* Functions that share this funcdef can be read while it is still incomplete
+         * (they can sit in its constants). They are checked against the number of
+         * environments, so publish it now; the array itself is only touched by the
+         * collector and the interpreter, which never see an incomplete funcdef. */
+        def->environments_length = environments_length;
+
         /* Check name and source (optional) */
         if (def->flags & JANET_FUNCDEF_FLAG_HASNAME) {
             Janet x;
@@ -1423,6 +1429,10 @@ static const uint8_t *unmarshal_one(
             *out = janet_wrap_function(func);
             janet_v_push(st->lookup, *out);
             data = unmarshal_one_def(st, data, &def, flags + 1);
+            if (def->environments_length != len) {
+                janet_panicf("invalid function - expected %d environments, got %d",
+                             def->environments_length, len);
+            }
             func->def = def;
             for (int32_t i = 0; i < len; i++) {
                 data = unmarshal_one_env(st, data, &(func->envs[i]), flags + 1);
